@@ -13,6 +13,8 @@ import (
 	"path/filepath"
 	"sort"
 	"strings"
+
+	"golang.org/x/tools/go/ssa"
 )
 
 type replayInput struct {
@@ -112,6 +114,21 @@ func (p *Program) writeNativeOverlay(dir string, onlyRel string) (string, error)
 			}
 		}
 		sb.WriteString("}\n\nfunc TestVPReplay(t *testing.T) { vpReplayMain(t, vpHarnessTable) }\n")
+		// race companions (functions named R_*) of this package
+		sb.WriteString("\nvar vpRaceTable = map[string]func(){\n")
+		if sp := p.byPath[pkgPathOf(rel)]; sp != nil {
+			var rn []string
+			for name, m := range sp.Members {
+				if _, ok := m.(*ssa.Function); ok && strings.HasPrefix(name, "R_") {
+					rn = append(rn, name)
+				}
+			}
+			sort.Strings(rn)
+			for _, n := range rn {
+				fmt.Fprintf(&sb, "\t%q: %s,\n", n, n)
+			}
+		}
+		sb.WriteString("}\n\nfunc TestVPRace(t *testing.T) {\n\tif f := vpRaceTable[vpRaceName()]; f != nil {\n\t\tf()\n\t}\n}\n")
 		real := filepath.Join(dir, fmt.Sprintf("reg_%s_test.go", strings.ReplaceAll(rel, "/", "_")))
 		if err := os.WriteFile(real, []byte(sb.String()), 0o644); err != nil {
 			return "", err
@@ -245,6 +262,26 @@ func (p *Program) runNativeOnce(rel string, cases []replayCase, scratch string, 
 		outs[idx] = o
 	}
 	return outs, string(out), nil
+}
+
+func pkgPathOf(rel string) string {
+	if rel == "." {
+		return repoMod
+	}
+	return repoMod + "/" + rel
+}
+
+// runRace runs the named companion under the race detector; true = a data race was reported.
+func (p *Program) runRace(rel, name, scratch string) (bool, string) {
+	ov, err := p.writeNativeOverlay(filepath.Join(scratch, "ovrace-"+strings.ReplaceAll(rel, "/", "_")), rel)
+	if err != nil {
+		return false, err.Error()
+	}
+	cmd := exec.Command("go", "test", "-race", "-v", "-vet=off", "-count=1", "-overlay", ov, "-run", "^TestVPRace$", "-timeout", "10m", "./"+rel)
+	cmd.Dir = p.repoDir
+	cmd.Env = append(os.Environ(), "GOFLAGS=-mod=mod", "GOPROXY=off", "GOSUMDB=off", "GOTOOLCHAIN=local", "VP_RACE="+name)
+	out, _ := cmd.CombinedOutput()
+	return strings.Contains(string(out), "WARNING: DATA RACE"), string(out)
 }
 
 func caseHash(c replayCase) string {
